@@ -98,6 +98,9 @@ type Session struct {
 	// client; when the channel is full the read loop stops reading until the client has consumed
 	// reports (atp/server.go: workDone has capacity 3).
 	Backpressure int `json:"backpressure,omitempty"`
+	// V1Strict: the scripted ATP v1 server handles one step at a time, like a v1 plugin: it reads the
+	// next work-start only after it has written the work-done of the previous one
+	V1Strict bool `json:"v1strict,omitempty"`
 	// DelayFn/DelayMs: every job of this session delays the first statement of that function of
 	// client.go (resolved to a yield point by the harness)
 	DelayFn string `json:"delayfn,omitempty"`
